@@ -12,6 +12,9 @@ CHECKS = {
  "C15": {
   "text": "Error discipline over the call graph: the set of functions that can reach a write/flush on the archive file is computed; buffering functions must be outside it; at every live call site of a writing function the Result must be propagated (never dropped, .ok()'d or only printed); finalize's Ok paths are dominated by flush_buffers then close; close/serialize flush after the footer; the CLI propagates the compressor API and main returns the Result; worker JoinHandles are joined and their inner Result propagated. Holds for every failing offset because no write result can be lost on any path; no I/O fault is injected.",
   "ref": "DESIGN.md 4/C15", "note": TB, "technique": "static analysis: effect summaries over the call graph + result-fate (error propagation) dataflow + dominance on MIR"},
+ "C13": {
+  "text": "Structural clauses of the container contract on MIR: ordered append-only write buffer replayed once in map order through add_part; add_part appends to the stream's part list; register_stream returns stored id or pre-push length; offset recorded before any write and every write_all(x) paired with f_offset += x.len() on all success paths; only add_part/serialize write the file; the footer serialiser's role sequence and loop nesting equals the deserialiser's; writer and reader of the big-endian length-prefixed integer agree in shape; empty parts return (empty,0) without I/O. Decides the structure that byte equality needs, not byte equality itself.",
+  "ref": "DESIGN.md 4/C13", "note": TB, "technique": "static analysis: writer/reader sibling agreement over reconstructed expressions, path pairing rules, who-may-write queries on MIR"},
 }
 PENDING = "check not built yet in this session (design exists in DESIGN.md); will be claimed once its rules run"
 NOT_APPLICABLE = {
